@@ -312,10 +312,11 @@ pub fn calls_at_most(a: &Log, full: &Log) -> bool {
     le_stage(a, full, 0) && le_stage(a, full, 1) && le_stage(a, full, 2) && le_stage(a, full, 3)
 }
 
-/// identical call sequences (sequential mode); written without a loop (at most 12 calls)
+/// identical call sequences (sequential mode); written without a loop. The log keeps the first MAXSEQ (24) calls:
+/// the lengths must agree and the logged prefixes must be identical.
 pub fn same_call_sequence(a: &Log, b: &Log) -> bool {
     let n = a.seq_len();
-    if n != b.seq_len() || n > 12 {
+    if n != b.seq_len() {
         return false;
     }
     macro_rules! at {
@@ -324,6 +325,7 @@ pub fn same_call_sequence(a: &Log, b: &Log) -> bool {
         };
     }
     at!(0) && at!(1) && at!(2) && at!(3) && at!(4) && at!(5) && at!(6) && at!(7) && at!(8) && at!(9) && at!(10) && at!(11)
+        && at!(12) && at!(13) && at!(14) && at!(15) && at!(16) && at!(17) && at!(18) && at!(19) && at!(20) && at!(21) && at!(22) && at!(23)
 }
 
 pub fn any_params() -> crate::Params {
